@@ -339,7 +339,9 @@ class Executor:
                 if ety is not None:
                     return self.mk_sym(ety, self.fresh("elem"))
             if isinstance(v, SymV) and v.ty.get("ty") is not None:
-                return self.mk_sym(v.ty["ty"], self.fresh("elem(%s)" % v.name))
+                # (the index is part of the element's name: a rule can tell `args[i]` from some other element)
+                ix_ = repr(Poly(dict(step[1]))) if len(step) > 1 and step[1] is not None else "?"
+                return self.mk_sym(v.ty["ty"], self.fresh("elem(%s)[%s]" % (v.name, ix_)))
             raise Undecided("symbolic index of %r" % (v,))
         if k == "sx":
             if isinstance(v, SymV):
@@ -733,6 +735,16 @@ class Executor:
         if facts is not None:
             if facts.entails_ge0_split(p - tlo, 2, 2) and facts.entails_ge0_split(thi - p, 2, 2):
                 return IntV(bits, signed, p=p)
+        # at most one wrap-around on either side (x - 1 of an unsigned x, a + b of two values of the type): the
+        # reduced value is p plus / minus 2^bits under a comparison - exact, and later facts can decide the comparison
+        span_ = 1 << bits
+        if not signed and lo is not None and hi is not None and lo >= tlo - span_ and hi <= thi + span_ and len(p.terms) <= 6:
+            v_ = p
+            if lo < tlo:
+                v_ = v_ + span_ * (ONE - ge0(p - tlo, facts))
+            if hi > thi:
+                v_ = v_ - span_ * ge0(p - thi - 1, facts)
+            return IntV(bits, signed, p=v_)
         # wrapping: go through bits when possible
         bv = self.poly_to_bits(p, bits, signed, facts) if (lo is not None and lo >= 0 and self.bits_cheap(p)) else None
         if bv is not None:
